@@ -71,10 +71,19 @@ def run(R):
         # the header reads are the getters on the function's own argument that dominate every Ok(Some(map)) return
         oks = [bb for bb, i, p, a, ops in mirlib.aggregates(dt, 'result::Result', 'Ok') if p['l'] == 0 and term_contains(dt.origin(ops[0]), lambda x: x and x[0] == 'agg' and x[1].get('variant') == 'Some')]
         gets = [(bb, t) for bb, t in gets if oks and all(dt.dominates(bb, ob) for ob in oks) and 'arg1' in show(dt.origin(t['args'][0]))]
-        R.eq([t['name'] for bb, t in gets], ['get_u8', 'get_u32'], 'C17.R1', 'reader-skips-5-byte-header', site(dt), 'header reads of the trailers frame')
-        for gb, gt in gets:
+        advs = [(bb, t) for bb, t in dt.calls(name='advance') if oks and all(dt.dominates(bb, ob) for ob in oks) and 'arg1' in show(dt.origin(t['args'][0]))]
+        GW = {'get_u8': 1, 'get_u16': 2, 'get_u32': 4, 'get_u64': 8}
+        skipped = sum(GW.get(t['name'], 99) for bb, t in gets) + sum(const_val(dt.origin(t['args'][1])) if isinstance(const_val(dt.origin(t['args'][1])), int) else 99 for bb, t in advs)
+        R.eq(skipped, 5, 'C17.R1', 'reader-skips-5-byte-header', site(dt), 'bytes skipped before the trailer block (flag + length: get_u8 + get_u32, or advance(5))')
+        for gb, gt in gets + advs:
             g = dt.edge_guards(gb)
-            okg = any(tm[0] == 'bin' and tm[1] == 'Lt' and is_call(strip_refs(tm[2]), name='remaining') and const_val(tm[3]) == 5 and vals == [0] for s, vals, tm in g)
+            okg = False
+            for s_, vals, tm in g:
+                o_ = mirlib.norm_cmp(tm)
+                if o_[0] == 'bin' and o_[1] == 'Gt' and const_val(o_[2]) == 5 and is_call(strip_refs(o_[3]), name='remaining') and vals == [0]:
+                    okg = True
+                if o_[0] == 'bin' and o_[1] == 'Ge' and const_val(o_[3]) == 5 and is_call(strip_refs(o_[2]), name='remaining') and (vals == ['else'] or 0 not in vals):
+                    okg = True
             R.check(okg, 'C17.R1', '%s-behind-length-check' % gt['name'], site(dt, gb), 'dominated by the false edge of remaining() < 5')
         ft = web.body('call::find_trailers')
         R.saw(ft)
@@ -84,7 +93,8 @@ def run(R):
         R.check(len(tr) == 1, 'C17.R1', 'trailer-site', site(ft), 'FindTrailers::Trailer constructions: %d' % len(tr))
         for bb, i, p, a, ops in tr:
             g = ft.edge_guards(bb)
-            okf = any(tm[0] == 'bin' and tm[1] == 'Eq' and const_val(tm[3]) == W['trailers_flag'] and is_call(strip_refs(tm[2]), name='get_u8') and (vals == ['else'] or 0 not in vals) for s, vals, tm in g)
+            okf = any(tm[0] == 'bin' and tm[1] == 'Eq' and const_val(tm[3]) == W['trailers_flag'] and is_call(strip_refs(tm[2]), name='get_u8') and (vals == ['else'] or 0 not in vals) for s, vals, tm in g) \
+                or any(is_call(strip_casts(tm), name='get_u8') and vals == [W['trailers_flag']] for s, vals, tm in g)
             R.check(okf, 'C17.R1', 'trailer-flag-0x80', site(ft, bb, i), 'Trailer reported when the flag byte == 0x80: %r' % okf)
             def direct_u32(x):
                 x = strip_casts(x)
@@ -96,9 +106,20 @@ def run(R):
             R.check(okc, 'C17.R1', 'whole-trailers-frame-required', site(ft, bb, i),
                     'Trailer is reported only behind a comparison of the buffered length with the trailers frame length: %r (otherwise a chunk boundary inside the trailers frame yields a partial block and then "Invalid header bit")' % okc)
         # header completeness test uses 5
-        lt5 = [bb for bb in ft.live_blocks() if ft.term(bb)['k'] == 'switch' and (lambda o: o[0] == 'bin' and o[1] in ('Lt', 'Le') and const_val(o[3]) in (5,) and is_call(strip_refs(o[2]), name='len'))(ft.origin(ft.term(bb)['on']))]
+        def enough(tm, vals):
+            # len < 5 false | len <= 5 false | len >= 5 true | len > 4.. : after normalisation Gt/Ge(5, len) false, Ge(len, 5) true
+            o_ = mirlib.norm_cmp(tm)
+            if o_[0] != 'bin':
+                return False
+            if o_[1] in ('Gt', 'Ge') and const_val(o_[2]) == 5 and is_call(strip_refs(o_[3]), name='len'):
+                return vals == [0]
+            if o_[1] == 'Ge' and const_val(o_[3]) == 5 and is_call(strip_refs(o_[2]), name='len'):
+                return vals == ['else'] or 0 not in vals
+            if o_[1] == 'Gt' and const_val(o_[3]) == 4 and is_call(strip_refs(o_[2]), name='len'):
+                return vals == ['else'] or 0 not in vals
+            return False
         gu = [(bb, t) for bb, t in ft.calls(pat='bytes::Buf::get_')]
-        okh = bool(lt5) and all(any(s_ in lt5 and vals == [0] for s_, vals, tm in ft.edge_guards(gb)) for gb, gt in gu)
+        okh = bool(gu) and all(any(enough(tm, vals) for s_, vals, tm in ft.edge_guards(gb)) for gb, gt in gu)
         R.check(okh, 'C17.R1', 'needs-5-byte-header', site(ft), 'every header read in find_trailers is behind the false edge of len() < 5 (or <= 5): %r (%d getter sites)' % (okh, len(gu)))
 
     # ---------------------------------------------------------------- R2 termination / no loss in the client loop
